@@ -35,11 +35,22 @@ def run_batch(g, tier, name, runs, out, acc, cfg_text=None, decode=None, module=
     tp, hw = vlib.run_harness("conn", hruns, f"{g['name']}_{tier}_{name}")
     t0 = time.time()
     verdict = vlib.judge(g["judge"], tp, f"{g['name']}_{tier}_{name}")
+    if module == "MC_Out":
+        # the write-path behaviours are also judged by the sink monitor (results of sends, connection not ended by a
+        # local failure), not only by the byte-level stream monitor
+        v2 = vlib.judge("SinkJudge", tp, f"{g['name']}_{tier}_{name}_sink")
+        # only what SinkMon can judge soundly here: during the commands of the behaviour (not in the closing
+        # `settle`, where streams the application never finished are abandoned) the connection may end only for a
+        # cause the monitor sees (dropped stream, chunk beyond the declared size); refusals have to be justified
+        keep = ("C06:connection-ended-although-peer-was-orderly", "C06:send-refused-although-no-payload-is-owed",
+                "C06:free-identifier-refused-as-in-use", "C06:panic")
+        verdict["viol"] += [v for v in v2["viol"] if v["why"] in keep and v.get("cmd") != "settle"]
+        verdict["events"] += v2["events"]
     out["wall"]["harness"] = round(out["wall"].get("harness", 0) + hw, 2)
     out["wall"]["judge"] = round(out["wall"].get("judge", 0) + time.time() - t0, 2)
     acc["runs"] += verdict["runs"]
     acc["events"] += verdict["events"]
-    cspec = ENDPOINT_CONFORM if module == "MC_Endpoint" else g.get("conform")
+    cspec = ENDPOINT_CONFORM if module == "MC_Endpoint" else groups.OUT_CONFORM if module == "MC_Out" else g.get("conform")
     if conform_fn:
         t1 = time.time()
         c = conform_fn(runs, tp, f"{g['name']}_{tier}_{name}")
